@@ -193,3 +193,41 @@ Proof.
   - exact (acyclicb_rank ds nodes H Hall x m Hx Hm Hy).
   - pose proof (acyclicb_rank ds nodes H Hall x m Hx Hm Hhm). specialize (IH Hy). lia.
 Qed.
+
+(* ------------------------------------------------------------------ the executable oracle of
+   C14/Check.v (judgement 2) is the theorems' predicates, and it holds of the model's own output *)
+Lemma nodupb_NoDup : forall l, nodupb l = true <-> NoDup l.
+Proof.
+  induction l as [|x r IH]; cbn [nodupb]; [split; [constructor|reflexivity]|].
+  rewrite andb_true_iff, negb_true_iff, IH. split.
+  - intros [H1 H2]. constructor; [apply memZ_not_In; exact H1|exact H2].
+  - intros H. inversion H; subst. split; [apply memZ_not_In; assumption|assumption].
+Qed.
+
+Lemma members_firstb_cf : forall ds l before, members_firstb ds before l = true <-> cf ds before l.
+Proof.
+  intros ds. induction l as [|r rest IH]; intros before; cbn [members_firstb cf]; [tauto|].
+  rewrite andb_true_iff, IH, forallb_forall. split; intros [H1 H2]; (split; [|exact H2]).
+  - intros m Hm Hh. specialize (H1 m Hm). unfold Proofs.hist_of in Hh. rewrite Hh in H1. cbn in H1.
+    apply memZ_In. exact H1.
+  - intros m Hm. destruct (has_history ds m) eqn:E; [|reflexivity]. cbn. apply memZ_In. apply H1; assumption.
+Qed.
+
+Theorem oracle_holds_of_model : forall ds nodes fuel ids s out,
+  order ds fuel ids = (s, out) ->
+  (forall id, has_history ds id = true -> In id nodes) ->
+  nodupb out = true /\
+  forallb (has_history ds) out = true /\
+  (s = SOk -> forallb (fun r => negb (has_history ds r) || memZ r out) ids = true) /\
+  (acyclicb ds nodes = true -> members_firstb ds [] out = true).
+Proof.
+  intros ds nodes fuel ids s out H Hall. split; [|split; [|split]].
+  - apply nodupb_NoDup. exact (order_nodup ds fuel ids s out H).
+  - apply forallb_forall. intros y Hy. exact (order_only_with_history ds fuel ids s out H y Hy).
+  - intros Hs. subst s. apply forallb_forall. intros r Hr.
+    destruct (has_history ds r) eqn:E; [|reflexivity]. cbn. apply memZ_In.
+    exact (order_complete ds fuel ids out H r Hr E).
+  - intros Ha. apply members_firstb_cf.
+    pose proof (order_from_cf ds (rank_of ds nodes) (acyclicb_rank ds nodes Ha Hall) fuel ids []) as C.
+    unfold order in H. destruct (order_from ds fuel ids []) as [[s' v] o]. inversion H; subst. exact C.
+Qed.
